@@ -334,7 +334,16 @@ func c09Premise(m *sx.Machine, tm *refsem.TModel, inst refsem.Inst) *smt.Term {
 	case refsem.TKInt:
 		if tm.Hi.BitLen() >= 63 {
 			lo, hi := c.Rat(newRatInt(tm.Lo)), c.Rat(newRatInt(tm.Hi))
-			return c.Implies(c.And(inst.TagIs(sx.TagNumber), inst.NumIsInt()), c.And(c.Le(lo, inst.NumReal()), c.Le(inst.NumReal(), hi)))
+			lower := c.Le(lo, inst.NumReal())
+			if tm.Lo.Sign() < 0 && tm.Lo.BitLen() == 64 {
+				// The premise is about the *document*. Instances here are decoded documents
+				// (float64), and the document spelled for float64(-2^63) is its shortest
+				// round-trip form "-9223372036854776000", an integer below the int64 range:
+				// outside the premise. (Every other float64 in [-2^63, 2^63) spells an integer
+				// inside the range.)
+				lower = c.Lt(lo, inst.NumReal())
+			}
+			return c.Implies(c.And(inst.TagIs(sx.TagNumber), inst.NumIsInt()), c.And(lower, c.Le(inst.NumReal(), hi)))
 		}
 	case refsem.TKPtr:
 		return c09Premise(m, tm.Elem, inst)
@@ -371,7 +380,7 @@ func init() {
 		Checks[id] = func(cc *CheckCtx, r *Report) {
 			var cases []TypeCase
 			for _, t := range TypeFamily() {
-				if !enc && (t.Std || refsem.BuildTModel(t.T).HasStd()) {
+				if !enc && (t.Std || t.NeverEmitted || refsem.BuildTModel(t.T).HasStd()) {
 					continue // C09's domain excludes standard-library marshaler types
 				}
 				cases = append(cases, t)
